@@ -575,7 +575,8 @@ struct StreamSim : Sim {
                 int *match = (int *) e.mem.alloc(4, 4, START_FLUSH, &e.hidden, "rolling match out", R_OUTPUT);
                 e.ev(mix64(OP_DELIVER, ((uint64_t) ci << 40) | n));
                 SlotGuard sg;
-                sg.set(S.roll_disp, S.roll_impl[c.fam]);
+                if (!g_force_family_api)
+                        sg.set(S.roll_disp, S.roll_impl[c.fam]);
                 int m;
                 if (c.api) {
                         uint64_t rc = e.call("isal_rolling_hash2_run", S.roll_isal_run, { U(c.ctx), U(src), n, c.mask, c.trigger, U(off), U(match) });
@@ -968,7 +969,7 @@ struct StreamSim : Sim {
                         SClient &c = s.cl[i];
                         std::string k = strfmt("c%d_", i);
                         c.kind = (int) (p.get((k + "kind").c_str()) % K_N);
-                        c.api = (int) p.get((k + "api").c_str());
+                        c.api = g_force_family_api ? 0 : (int) p.get((k + "api").c_str());
                         Place pl = (Place) (p.get((k + "place").c_str()) % 3);
                         if (c.kind <= K_MUR) {
                                 c.fam = (int) (p.get((k + "fam").c_str()) % 5);
